@@ -274,6 +274,11 @@ def build(spec, overrides=None, only_subgraph=None, with_signatures=True):
       sd.inputs = [tm(arg_name(sg, k, True), sg['inputs'][k]) for k in ip]
       sd.outputs = [tm(arg_name(sg, k, False), sg['outputs'][k]) for k in op_]
       m.signatureDefs.append(sd)
+  # the signature list need not be in subgraph order (each entry names its
+  # subgraph); e.g. an exporter that sorts signatures by key
+  so = spec.get('sig_order')
+  if so and only_subgraph is None and len(so) == len(m.signatureDefs):
+    m.signatureDefs = [m.signatureDefs[k] for k in so]
 
   if spec.get('dedup'):
     _dedup_buffers(m)
@@ -844,6 +849,8 @@ def model_specs(draw, **kw):
       g.final['sig_out_perm'] = list(draw(st.permutations(list(range(len(outs))))))
       g.final['sig_in_perm'] = list(draw(st.permutations(list(range(len(g.final['inputs']))))))
   spec = {'subgraphs': [g.final for g in sgs], 'dedup': bool(cfg['dedup'] and draw(st.booleans()))}
+  if nsg >= 2 and draw(st.integers(0, 2)) == 0:
+    spec['sig_order'] = list(draw(st.permutations(list(range(nsg)))))
   return _clean(spec)
 
 
@@ -899,6 +906,8 @@ def features(spec):
   f.add('subgraphs=%d' % len(spec['subgraphs']))
   if spec.get('dedup'):
     f.add('dedup')
+  if spec.get('sig_order') and spec['sig_order'] != sorted(spec['sig_order']):
+    f.add('signatures_not_in_subgraph_order')
   for si, sg in enumerate(spec['subgraphs']):
     order = emit_order(sg)
     pos = {ni: k for k, ni in enumerate(order)}
@@ -992,3 +1001,17 @@ def single_op_spec(sg, node, const_values_by_pos):
                  'opts': node.get('opts', {})}],
       'order': [0], 'inputs': ins, 'outputs': outs}], 'dedup': False}
   return spec, feed_pos
+
+
+def sharer_groups(mspec, min_rank=0):
+  """Lists of output names of the ops consuming one shared constant (tensor or buffer)."""
+  by_const = {}
+  for si, sg in enumerate(mspec['subgraphs']):
+    for n in sg['nodes']:
+      for t in set(x for x in n['in'] if x >= 0):
+        tt = sg['tensors'][t]
+        if tt['kind'] != 'const' or tt['dtype'] != 'f32' or len(tt['shape']) < min_rank:
+          continue
+        key = tuple(tt['share']) if tt.get('share') is not None else (si, t)
+        by_const.setdefault(key, []).append(sg['tensors'][n['out'][0]]['name'])
+  return [sorted(set(v)) for v in by_const.values() if len(set(v)) >= 2]
